@@ -291,6 +291,50 @@ pub fn parse<'a>(entry: Entry, buf: &'a [u8]) -> Result<Verdict<'a>, String> {
     }
 }
 
+/// What the receiver of a connection that is not judged does with its buffer: the same library
+/// routine as a judged receiver (entry point; on acceptance the whole TLV walk and an owned
+/// copy). Everything it returns is dropped; an unwind is swallowed (other runs judge those).
+pub fn neighbor_step(entry: Entry, buf: &[u8]) {
+    let _ = guard(|| {
+        let walk = |h: &v2::Header| {
+            let mut n = 0usize;
+            for item in h.tlvs() {
+                n += 1;
+                if item.is_err() || n > h.as_bytes().len() / 3 + 2 {
+                    break;
+                }
+            }
+            let _ = h.to_owned();
+        };
+        match entry {
+            Entry::Auto => match HeaderResult::parse(buf) {
+                HeaderResult::V2(Ok(h)) => walk(&h),
+                HeaderResult::V1(Ok(h)) => {
+                    let _ = h.to_owned();
+                }
+                _ => {}
+            },
+            Entry::V2 => {
+                if let Ok(h) = v2::Header::try_from(buf) {
+                    walk(&h)
+                }
+            }
+            Entry::V1Bytes => {
+                let _ = v1::Header::try_from(buf);
+            }
+            Entry::V1Text => {
+                let _ = v1::Header::try_from(text_view(buf));
+            }
+            Entry::V1FromStrHeader => {
+                let _ = text_view(buf).parse::<v1::Header<'static>>();
+            }
+            Entry::V1FromStrAddr => {
+                let _ = text_view(buf).parse::<v1::Addresses>();
+            }
+        }
+    });
+}
+
 /// The bytes the entry point actually looks at for this buffer.
 pub fn view(entry: Entry, buf: &[u8]) -> &[u8] {
     if entry.is_text() {
@@ -352,6 +396,33 @@ pub fn drive(
     // the parser has a varying alignment and is preceded by unrelated bytes.
     let headroom = (sc.stream.len() + 3 * sc.events.len() + sc.bufcap) % 8;
     let mut backing: Vec<u8> = vec![0x5a; headroom];
+    if let Some(prev) = &sc.recycled {
+        // buffer pool: the allocation is sized once for whatever it will ever hold, an earlier
+        // connection received (and was parsed) in it, then the buffer went back to the pool
+        backing.reserve(sc.stream.len().max(prev.stream.len()) + 8);
+        for &c in &prev.cuts {
+            let c = c.min(prev.stream.len());
+            backing.truncate(headroom);
+            backing.extend_from_slice(&prev.stream[..c]);
+            neighbor_step(prev.entry, &backing[headroom..]);
+        }
+        backing.truncate(headroom);
+    }
+    // the other connections of this event loop: (buffer, next cut)
+    let mut others: Vec<(Vec<u8>, usize)> = sc.neighbors.iter().map(|_| (Vec::new(), 0)).collect();
+    let mut interleave = |others: &mut Vec<(Vec<u8>, usize)>| {
+        for (n, (buf, next)) in sc.neighbors.iter().zip(others.iter_mut()) {
+            if let Some(&c) = n.cuts.get(*next) {
+                let c = c.min(n.stream.len());
+                if c > buf.len() {
+                    let from = buf.len();
+                    buf.extend_from_slice(&n.stream[from..c]);
+                }
+                *next += 1;
+                neighbor_step(n.entry, buf);
+            }
+        }
+    };
     let mut available = 0usize; // bytes sitting in the socket
     let mut sent = 0usize; // bytes of sc.stream the transport has released
     let mut read = 0usize; // bytes of sc.stream the receiver has read
@@ -372,8 +443,12 @@ pub fn drive(
         n
     };
 
-    // the receiver parses its empty buffer first (as a loop that parses before reading would)
-    {
+    // the receiver parses its empty buffer first (as a loop that parses before reading would),
+    // unless the scenario says it reads first (as examples/server.rs does)
+    if sc.meta("no_initial_parse") == Some(1) {
+        keep_going = true;
+    } else {
+        interleave(&mut others);
         let info = StepInfo {
             event_index: usize::MAX,
             event: Ev::Deliver(0),
@@ -415,6 +490,7 @@ pub fn drive(
                 end.ended_by = "reset";
             }
         }
+        interleave(&mut others);
         let info = StepInfo {
             event_index: i,
             event: *ev,
@@ -440,6 +516,7 @@ pub fn drive(
         if n == 0 {
             break;
         }
+        interleave(&mut others);
         let info = StepInfo {
             event_index: usize::MAX,
             event: Ev::Deliver(n),
